@@ -117,7 +117,7 @@ def _relayout(draw, line):
 @st.composite
 def _unit(draw):
     g = _G(draw)
-    pick = draw(st.integers(0, 67))
+    pick = draw(st.integers(0, 69))
     sup = True
     pre = ""
     label = ""
@@ -474,6 +474,24 @@ def _unit(draw):
         else:
             body = f"{how}\nq = ds.{o}({lam}){tail}"
         label = "lambda-calling-a-function-of-an-imported-module"
+    elif pick in (68, 69):
+        # functions passed by name that are NOT a single return of an expression over the parameter: a constant assignment before
+        # the return (may be refused, must not be recorded without the assignment), and a return of a literal (a genuine one-line function)
+        o = g.op()
+        a = draw(st.sampled_from(ARGS))
+        g.n += 1
+        m = 1000 + g.n * 17
+        c = " > 0" if o == "Where" else ""
+        if pick == 68:
+            stmt = draw(st.sampled_from(["k_ = 5", "k_: int = 5", "k_ = 5; k_ += 1"]))
+            glob = draw(st.sampled_from(["", "k_ = 100\n"]))  # a module global of the same name makes a silent mis-recording possible
+            body = f"{glob}def f1({a}): {stmt}; return {a} * k_ + {m}{c}\nq = ds.{o}(f1)"
+            sup = False
+            label = "def-with-constant-assignment-before-return"
+        else:
+            lit = draw(st.sampled_from([str(m), "True", f"{m}.5", "'s'"])) if o != "Where" else "True"
+            body = f"def f1({a}): return {lit}\nq = ds.{o}(f1)"
+            label = "one-line-def-returning-a-literal"
     elif pick >= 42 and pick <= 58:
         # free-form layout: a chain of 2-3 calls, then line breaks (and comments) at random places where python allows them
         ncalls = draw(st.integers(2, 3))
